@@ -15,9 +15,13 @@ def plan(tier):
              Cond("c02_jwe.py", "general_json", "main", T * 2, "JWE general JSON: per-recipient kid resolves per-recipient key"),
              Cond("c11_jwk.py", "witness", "witness", 120)]
     p3, n3 = gen.specialise("c03_roundtrip.py", [("roundtrip_keys", [(a,) for a in ((0, 3, 9, 13) if q else range(15))])], "c14_gen3.py")
-    p4, n4 = gen.specialise("c04_roundtrip.py", [("roundtrip_options", [(a, e) for a, e in (((3, 3), (7, 0), (1, 3)) if q else [(a, 3) for a in range(21)])])], "c14_gen4.py")
+    p4, n4 = gen.specialise("c04_roundtrip.py", [("roundtrip_options", [(a, e) for a, e in (((3, 3), (7, 0), (1, 3)) if q else [(a, 3) for a in range(21)])]),
+                                                 ("explicit_kid", [(a,) for a in ((1, 3, 8, 11) if q else range(17))])], "c14_gen4.py")
+    p11, n11 = gen.specialise("c11_jwk.py", [("import_set", [(n_, t_) for n_ in (1, 2, 3) for t_ in (0, 2, 3)])], "c14_gen11.py")
+    conds += [Cond(p11, n, "main", T, "KeySet.import_key_set keeps every entry (with or without kid, mixed key types), in order, and gives each a kid (%s)" % n) for n in n11]
     conds += [Cond(p3, n, "main", T, "JWS producing: explicit kid uses that key; without kid a key of the algorithm's type is picked (symbolic index), its kid is written, the public set verifies (%s)" % n) for n in n3]
-    conds += [Cond(p4, n, "main", T, "JWE producing with a key set (%s)" % n) for n in n4]
+    conds += [Cond(p4, n, "main", T, ("JWE: an explicit kid in the protected / shared unprotected / per-recipient header selects that key for encryption and decryption (%s)"
+                                      if n.startswith("explicit") else "JWE producing with a key set (%s)") % n) for n in n4]
     meta = {
         "engine": "E1 CrossHair (adversarial consumers of C01/C02, ideal round trips of C03/C04, direct KeySet harnesses)",
         "functions": ["jwk.guess_key", "_normalize_key", "KeySet.get_by_kid", "pick_random_key", "algorithm_keys", "as_dict", "__init__", "set_kid variants",
